@@ -26,6 +26,8 @@ func main() {
 		genC19(r)
 	case "JWSREAD":
 		genJwsRead(r, "JWSREAD")
+	case "COSEREAD":
+		genCoseRead(r, "COSEREAD")
 	case "C04":
 		genC04(r)
 	case "C05":
@@ -57,6 +59,13 @@ func runReplay(prop, path string) int {
 func outcomeOf(c *Case) string {
 	if v, ok := c.Impl["ok"]; ok {
 		return fmt.Sprint("ok=", v)
+	}
+	if v, ok := c.Impl["verify"].(map[string]any); ok {
+		cv, _ := c.Impl["content"].(map[string]any)
+		return fmt.Sprint("verify=", v["ok"], " content=", cv["ok"])
+	}
+	if v, ok := c.Impl["parsed"]; ok {
+		return fmt.Sprint("parsed=", v)
 	}
 	if v, ok := c.Impl["panic"]; ok {
 		return fmt.Sprint("panic:", v)
